@@ -66,84 +66,116 @@ def _targets(t, path=()):
 
 
 def bindings(fn):
-    """[(name, kind, expr-or-None, path)] in source order, first binding of each name only"""
+    """[(name, [(kind, expr-or-None, path), ..])] in order of first binding (tree order of the normalised tree); every
+    binding of a name is listed, so a local is recognised by ANY of its definitions"""
     a = fn.args
-    out = []
-    seen = set()
+    order = []
+    binds = {}
+
+    def add(name, kind, expr, path):
+        if name not in binds:
+            binds[name] = []
+            order.append(name)
+        binds[name].append((kind, expr, path))
+
     for i, p in enumerate(a.posonlyargs + a.args):
-        out.append((p.arg, "param", None, (i,)))
-        seen.add(p.arg)
+        add(p.arg, "param", None, (i,))
     for p in a.kwonlyargs:
-        out.append((p.arg, "kwonly", None, (p.arg,)))
-        seen.add(p.arg)
+        add(p.arg, "kwonly", None, (p.arg,))
     if a.vararg:
-        out.append((a.vararg.arg, "vararg", None, ()))
-        seen.add(a.vararg.arg)
+        add(a.vararg.arg, "vararg", None, ())
     if a.kwarg:
-        out.append((a.kwarg.arg, "kwarg", None, ()))
-        seen.add(a.kwarg.arg)
+        add(a.kwarg.arg, "kwarg", None, ())
+    params = set(order)
     skip = set()
     for n in _own_nodes(fn):
         if isinstance(n, (ast.Global, ast.Nonlocal)):
             skip.update(n.names)
-    events = []
     for n in _own_nodes(fn):
+        evs = []
         if isinstance(n, ast.Assign):
             for t in n.targets:
                 for nm, path in _targets(t):
-                    events.append((nm.lineno, nm.col_offset, nm.id, "assign", n.value, path))
+                    evs.append((nm.id, "assign", n.value, path))
         elif isinstance(n, ast.AnnAssign) and n.value is not None:
             for nm, path in _targets(n.target):
-                events.append((nm.lineno, nm.col_offset, nm.id, "assign", n.value, path))
+                evs.append((nm.id, "assign", n.value, path))
         elif isinstance(n, ast.AugAssign) and isinstance(n.target, ast.Name):
-            events.append((n.target.lineno, n.target.col_offset, n.target.id, "aug", n.value, ()))
+            evs.append((n.target.id, "aug", n.value, ()))
         elif isinstance(n, ast.NamedExpr):
-            events.append((n.target.lineno, n.target.col_offset, n.target.id, "assign", n.value, ()))
+            evs.append((n.target.id, "assign", n.value, ()))
         elif isinstance(n, (ast.For, ast.AsyncFor)):
             for nm, path in _targets(n.target):
-                events.append((nm.lineno, nm.col_offset, nm.id, "for", n.iter, path))
+                evs.append((nm.id, "for", n.iter, path))
         elif isinstance(n, ast.comprehension):
             for nm, path in _targets(n.target):
-                events.append((nm.lineno, nm.col_offset, nm.id, "comp", n.iter, path))
+                evs.append((nm.id, "comp", n.iter, path))
         elif isinstance(n, ast.withitem) and n.optional_vars is not None:
             for nm, path in _targets(n.optional_vars):
-                events.append((nm.lineno, nm.col_offset, nm.id, "with", n.context_expr, path))
+                evs.append((nm.id, "with", n.context_expr, path))
         elif isinstance(n, ast.ExceptHandler) and n.name:
-            events.append((n.lineno, n.col_offset, n.name, "except", n.type, ()))
-    events.sort(key=lambda e: (e[0], e[1]))
-    for _, _, name, kind, expr, path in events:
-        if name in seen or name in skip:
-            continue
-        seen.add(name)
-        out.append((name, kind, expr, path))
-    return out
+            evs.append((n.name, "except", n.type, ()))
+        for name, kind, expr, path in evs:
+            if name in skip or name in params:
+                continue
+            add(name, kind, expr, path)
+    return [(nm, binds[nm]) for nm in order]
+
+
+def _weak(e):
+    if isinstance(e, ast.Constant):
+        return True
+    if isinstance(e, (ast.List, ast.Tuple, ast.Set)) and not e.elts:
+        return True
+    if isinstance(e, ast.Dict) and not e.keys:
+        return True
+    if isinstance(e, ast.UnaryOp) and isinstance(e.operand, ast.Constant):
+        return True
+    if isinstance(e, ast.Call) and isinstance(e.func, ast.Name) and e.func.id in ("list", "dict", "set", "tuple") \
+            and not e.args and not e.keywords:
+        return True
+    return False
 
 
 def signatures(fn, table_names=None):
-    """[(actual name, signature)] for fn; signature texts use canonical names for already-processed locals.
-    table_names: [(signature, name)] from the table (apply mode) or None (build mode: canonical = actual)."""
+    """[(actual name, [signatures], canonical name)].  table_names: [(signature, name)] from the table (apply mode) or
+    None (build mode: canonical = actual)."""
     binds = bindings(fn)
     local_names = {b[0] for b in binds}
     mapping = {}
-    used = {}
     out = []
     avail = {}
     if table_names is not None:
         for sig, nm in table_names:
-            avail.setdefault(sig, []).append(nm)
+            avail.setdefault(sig, [])
+            if nm not in avail[sig]:
+                avail[sig].append(nm)
     taken = set()
-    for name, kind, expr, path in binds:
-        txt = _text(expr, mapping, local_names) if expr is not None else ""
-        sig = f"{kind}|{txt}|{','.join(map(str, path))}"
+    for name, events in binds:
+        sigs, weak = [], []
+        for kind, expr, path in events:
+            txt = _text(expr, mapping, local_names) if expr is not None else ""
+            sg = f"{kind}|{txt}|{','.join(map(str, path))}"
+            if kind in ("assign", "aug") and _weak(expr):
+                # `x = None`, `x = 0`, `x = []` say little about which variable x is: used only when the local
+                # has no other definition
+                if sg not in weak:
+                    weak.append("weak:" + sg)
+                continue
+            if sg not in sigs:
+                sigs.append(sg)
+        if not sigs:
+            sigs = weak
         canon = name
         if table_names is not None:
-            k = used.get(sig, 0)
-            used[sig] = k + 1
-            cands = avail.get(sig, [])
-            if k < len(cands):
-                canon = cands[k]
+            for sg in sigs:
+                cands = [c for c in avail.get(sg, []) if c not in taken]
+                if cands:
+                    canon = cands[0]
+                    break
+        taken.add(canon)
         mapping[name] = canon
-        out.append((name, sig, canon))
+        out.append((name, sigs, canon))
     return out
 
 
@@ -169,7 +201,7 @@ def build(trees):
     for mod, tree in trees.items():
         t = {}
         for q, fn in _quals(tree):
-            t[q] = [[sig, name] for name, sig, _ in signatures(fn)]
+            t[q] = [[sg, name] for name, sigs, _ in signatures(fn) for sg in sigs]
         table[mod] = t
     return table
 
@@ -206,10 +238,19 @@ def apply(tree, module_name):
                 ren[name] = canon
         if not ren:
             continue
-        # a canonical name must not collide with a different local that keeps its own spelling
-        keeps = {name for name, _, canon in res if canon == name}
-        ren = {a: c for a, c in ren.items() if c not in keeps or c in ren}
-        if len(set(ren.values())) != len(ren):
+        # two different locals must never end up under one name: renames that would collide (with each other or with a
+        # local that keeps its spelling) are dropped until the final naming is injective
+        all_names = [name for name, _, _ in res]
+        while True:
+            final = {}
+            for nm in all_names:
+                final.setdefault(ren.get(nm, nm), []).append(nm)
+            clash = [nm for tgt, srcs in final.items() if len(srcs) > 1 for nm in srcs if nm in ren]
+            if not clash:
+                break
+            for nm in clash:
+                del ren[nm]
+        if not ren:
             continue
         own = set(id(n) for n in _own_nodes(fn))
         for n in ast.walk(fn):
